@@ -193,3 +193,5 @@ func verifDecimal(minDigits, maxDigits int, max uint64) uint64 {
 	}
 	return v
 }
+
+func verifYieldNative() { time.Sleep(time.Microsecond) }
